@@ -116,6 +116,50 @@ pub fn c05_alphabet(ts: u8, hsa: u8) -> Vec<Sym> {
     v
 }
 
+/// Coarse poll schedules: the station sees two or three telegrams in ONE poll. All ordered pairs over
+/// a set of role-covering telegrams, triples of the 'own source address' telegrams, plus the single
+/// telegrams and the waits (so that bursts are also reached from states set up one telegram at a time).
+pub fn c05_burst_alphabet(ts: u8, hsa: u8) -> Vec<Sym> {
+    let a = if ts + 1 < hsa { ts + 1 } else { 0 };
+    let b = if ts >= 2 { ts - 1 } else { (ts + 2) % hsa };
+    let frames: Vec<rc::RFrame> = vec![
+        rc::token(a, ts),
+        rc::token(ts, ts),
+        rc::token(ts, b),
+        rc::token(a, b),
+        rc::token(b, a),
+        rc::token(200, a),
+        rc::status_req(ts, b),
+        rc::status_req(a, ts),
+        rc::status_resp(ts, a, 2),
+        rc::status_resp(ts, a, 3),
+        rc::RFrame::Sc,
+        rc::RFrame::Data { da: ts, sa: a, dsap: None, ssap: None, fc: 0x08, du: vec![1, 2] },
+    ];
+    let mut parts: Vec<Vec<u8>> = frames.iter().map(rc::encode).collect();
+    parts.push(vec![0x00]);
+    parts.push(vec![0x68, 0x09, 0x09, 0x68, ts, a]);
+    let mut v = vec![Sym::Wait(WaitLen::HalfSlot), Sym::Wait(WaitLen::SlotPlus), Sym::Wait(WaitLen::TimeoutPlus)];
+    for f in &frames {
+        v.push(Sym::Tel(f.clone(), Gap::G33));
+    }
+    for x in &parts {
+        for y in &parts {
+            v.push(Sym::Burst(vec![x.clone(), y.clone()]));
+        }
+    }
+    for x in [0usize, 1, 7] {
+        for y in [0usize, 1, 7] {
+            for z in [0usize, 1, 7, 2, 10] {
+                v.push(Sym::Burst(vec![parts[x].clone(), parts[y].clone(), parts[z].clone()]));
+            }
+        }
+    }
+    v.push(Sym::SetOffline);
+    v.push(Sym::SetOnline);
+    v
+}
+
 fn w2_explore(cfgs: Vec<(String, W2Cfg, usize, f64, u64)>, totals: &mut w4props::Totals) {
     for (label, cfg, depth, secs, max_states) in cfgs {
         if ctx().should_stop() {
@@ -266,6 +310,39 @@ pub fn run_c05(tier: Tier) -> ! {
                 };
                 let depth = tier.pick(3, 6);
                 cfgs.push((format!("TS{ts} HSA{hsa} G{g} sit{situation} apps{apps}"), cfg, depth, tier.pick(20.0, 45.0), tier.pick(400_000, 2_000_000)));
+            }
+        }
+    }
+    // (i-b) coarse poll schedules: several telegrams per poll
+    let burst_stations: Vec<(u8, u8, u8)> = match tier {
+        Tier::Quick => vec![(3, 7, 1)],
+        Tier::Thorough => vec![(3, 7, 1), (0, 4, 1), (125, 126, 10)],
+    };
+    for (ts, hsa, g) in burst_stations {
+        let a = if ts + 1 < hsa { ts + 1 } else { 0 };
+        let b = if ts >= 2 { ts - 1 } else { (ts + 2) % hsa };
+        let mut others = vec![a, b];
+        others.sort();
+        others.dedup();
+        for situation in [0u8, 2, 1] {
+            for apps in [0u8, 1] {
+                if apps > 0 && situation != 2 {
+                    continue;
+                }
+                let cfg = W2Cfg {
+                    ts,
+                    hsa,
+                    gap_factor: g,
+                    baud: 1,
+                    slot_bits: 100,
+                    ttr: None,
+                    period_div: 8,
+                    alphabet: c05_burst_alphabet(ts, hsa),
+                    prefix: prefix_for(situation, ts, &others),
+                    mon: W2Mon::C05,
+                    apps,
+                };
+                cfgs.push((format!("bursts TS{ts} HSA{hsa} G{g} sit{situation} apps{apps}"), cfg, tier.pick(2, 4), tier.pick(20.0, 45.0), tier.pick(400_000, 2_000_000)));
             }
         }
     }
